@@ -267,8 +267,16 @@ def connection_stream(ctx, ex, thorough):
                 ex.count("comparison", "connection:" + ("torch.equal" if exact else "1e-12 on the reduced output"))
                 bad = None
                 xs = []
+                dens = rng.choice([0.5, 0.5, 0.15])
                 for t in range(T):
-                    x = (torch.rand(B, *big.inshape, generator=g) < 0.5).to(torch.float64)
+                    x = (torch.rand(B, *big.inshape, generator=g) < dens).to(torch.float64)
+                    # silent frames: the WHOLE batch silent (spikes of earlier steps still in flight through the delays),
+                    # or one sample silent while the others are active
+                    u = float(torch.rand(1, generator=g))
+                    if u < 0.25:
+                        x = torch.zeros_like(x)
+                    elif u < 0.45:
+                        x[int(torch.randint(0, B, (1,), generator=g))] = 0
                     xs.append(x)
                     with torch.no_grad():
                         oB = big(x)
@@ -402,6 +410,11 @@ def trainer_stream(ctx, ex, thorough):
                 B = cfg["batch"]
                 tc = nb.trainer_cfg(rng, tk)
                 tc["reduction"] = "sum"
+                if rep % 4 in (1, 2) and tk not in nb.NEEDS_DELAY:
+                    # the trainer's delayed mode on a connection that really has delays (both are non-default; left to
+                    # chance the combination is rare): presynaptic history is then read per sample through the selector
+                    tc["delayed"] = True
+                    cfg = nb.layer_cfg(rng, lk, delayed=True, batch=B, dyadic=dy)
                 g = nb.gen(rng.randrange(2**31))
                 big = nb.Net(cfg, batch=B)
                 randomise_adaptations(big, g)
